@@ -6,7 +6,7 @@
    (linear_case_ok / linear_case_borderline), CheckC17Log.v (log_case_ok / log_case_borderline).
    Closed under the global context. *)
 From Coq Require Import Qround Sorted Lqa.
-From MM Require Import Base.Num Model.Ticks Proofs.Ticks Proofs.TicksLinear Check.C17 Proofs.CheckBase
+From MM Require Import Base.Num Base.GBLemmas Model.Ticks Proofs.Ticks Proofs.TicksLinear Proofs.TicksLog Proofs.TicksLogExp Check.C17 Proofs.CheckBase
   Proofs.CheckC17Base Proofs.CheckC17Parse Proofs.CheckC17Lin Proofs.CheckC17Log Proofs.CheckC17Win Proofs.CheckC17WinLog Proofs.CheckC17WinCase Proofs.CheckC17WinCaseLog.
 Local Open Scope Z_scope.
 
@@ -58,6 +58,32 @@ Proof.
   - exact (judge_linear_sound c cd tag pos diag Hj Hc).
   - split; [|exact (judge_log_sound c cd tag pos diag Hj Hc)].
     destruct (parse_C17_shape line (CLog c) Hp) as (rest & _ & _ & Hpre). now apply log_pre_sound.
+Qed.
+
+(* ---------- the admitted exponent interval of a Log domain ---------- *)
+Lemma ceil_log_cases b q : ceil_log b q = floor_log b q \/ ceil_log b q = floor_log b q + 1.
+Proof. unfold ceil_log. destruct (Qeqb _ _); auto. Qed.
+Lemma floor_log_mono b q1 q2 : 2 <= b -> (0 < q1)%Q -> (q1 <= q2)%Q -> floor_log b q1 <= floor_log b q2.
+Proof.
+  intros Hb H1 H12. apply (floor_log_greatest b q2 Hb ltac:(lra)).
+  pose proof (floor_log_spec b q1 Hb H1) as [A _]. lra.
+Qed.
+(* the admitted exponent interval of a Log domain is never "more than empty" *)
+Lemma log_exps_in_proper b emin emax : 2 <= b -> (0 < emin)%Q -> (emin <= emax)%Q ->
+  le_in_lo (log_exps b emin emax) <= le_in_hi (log_exps b emin emax) + 1.
+Proof.
+  intros Hb Hp Ho. unfold log_exps. cbv zeta. cbn [le_in_lo le_in_hi].
+  pose proof (floor_log_mono b emin emax Hb Hp Ho) as M.
+  pose proof (ceil_log_cases b emin) as C1. pose proof (ceil_log_cases b emax) as C2.
+  destruct (match near (qpow b (floor_log b emin)) emin (emax / emin) (log_mu emin emax) with N_inside => true | _ => false end);
+  destruct (match near emax (qpow b (ceil_log b emax)) (emax / emin) (log_mu emin emax) with N_inside => true | _ => false end); lia.
+Qed.
+Lemma log_domain_exps_proper base mn mx : log_domain base mn mx ->
+  le_in_lo (log_e base mn mx) <= le_in_hi (log_e base mn mx) + 1.
+Proof.
+  intros (Hb & Ho & Hs). unfold log_e, lf_emin, lf_emax, log_fold. destruct (Qltb mn 0) eqn:S; cbn [fst snd]; gb_bool.
+  - apply log_exps_in_proper; [exact Hb | | lra]. nra.
+  - apply log_exps_in_proper; [exact Hb | | exact Ho]. destruct (Qlt_le_dec 0 mn); [assumption|]. nra.
 Qed.
 
 (* ================= statements for Properties/C17.v ================= *)
@@ -330,8 +356,10 @@ Lemma case_meaning_scales :
   (* the minor ticks: TicksAtLevel(l < 0) on the folded positive domain [emin, emax] *)
   (forall b e emin emax ro l v, (2 <= b)%Z -> (l < 0)%Z ->
      (In v (log_ticks_pos b e emin emax ro l) <->
-      exists k j, (le_out_lo e <= k <= le_out_hi e)%Z /\ (1 <= j <= b - 1)%Z /\ v = inject_Z j * qpow b k /\ emin <= v /\ v <= emax)).
-Proof. repeat match goal with |- _ /\ _ => split end; intros; first [reflexivity | now apply log_minor_ticks_spec]. Qed.
+      exists k j, (le_out_lo e <= k <= le_out_hi e)%Z /\ (1 <= j <= b - 1)%Z /\ v = inject_Z j * qpow b k /\ emin <= v /\ v <= emax)) /\
+  (* the hypothesis "le_in_lo e <= le_in_hi e + 1" of the Log readings holds on every Log domain *)
+  (forall base mn mx, log_domain base mn mx -> (le_in_lo (log_e base mn mx) <= le_in_hi (log_e base mn mx) + 1)%Z).
+Proof. repeat match goal with |- _ /\ _ => split end; intros; first [reflexivity | now apply log_minor_ticks_spec | now apply log_domain_exps_proper]. Qed.
 
 (* the borderline rule (verdict code 1): Linear: outside the near_round window of every floor/ceil decision
    the admissible comparison implies the exact one *)
